@@ -431,7 +431,17 @@ pub fn nested_function_programs() -> Vec<Vec<Stmt>> {
                             obody.push(es(array(vec![int(99), inner])));
                             let opr: Vec<&str> = oparams.iter().map(|s| s.as_str()).collect();
                             let outer = call(func("", &opr, obody), (0..np).map(|i| int(10 + i as i64)).collect());
-                            out.push(vec![let_("g", int(7)), es(outer)]);
+                            out.push(vec![let_("g", int(7)), es(outer.clone())]);
+                            // the same with a global of every outer name: the inner function must see the global
+                            if kind != 3 && (oparams.contains(n) || olocals.contains(n)) {
+                                let mut prog = vec![let_("g", int(7))];
+                                for (i, nm) in oparams.iter().chain(olocals.iter()).enumerate() {
+                                    prog.push(let_(nm, int(1000 + i as i64)));
+                                }
+                                prog.push(es(outer));
+                                prog.push(es(array(oparams.iter().chain(olocals.iter()).map(|nm| id(nm)).collect())));
+                                out.push(prog);
+                            }
                         }
                     }
                 }
